@@ -24,6 +24,11 @@ theorem hybrid_threshold_irrelevant (E : Engines) (valid : List UInt8 → Prop) 
   unfold hybridFindAll
   split <;> split <;> simp [h r b hb]
 
+/-- the wrapper is a pure selection between the engines' own results — the form in which it is compared with the real
+    `hybridre2.FindAllIndex` on inputs of every size class (up to several MiB) -/
+theorem hybridFindAll_eq_select (E : Engines) (t : Int) (r : Re) (b : List UInt8) :
+    hybridFindAll E t r b = hybridSelect t b.length (E.grafana r b) (E.re2 r b) := rfl
+
 /-- **C28 at the match-tree level**: the candidate matches `regexpMatchTree.matches` produces for a document are the
     same under any two threshold settings, for content and for file names. -/
 theorem threshold_irrelevant (E : Engines) (valid : List UInt8 → Prop) (h : EnginesAgree E valid)
